@@ -41,3 +41,28 @@ Definition yield_ok (inp : input) (t : tree) : bool :=
 Definition c04_prop (c : grammar * string * input * list tree) : nat :=
   let '(G, start, inp, impl) := c in
   if forallb (fun t => derives_b G start t && yield_ok inp t && no_helper t) impl then 1 else 0.
+
+(* the same comparison modulo empty derivations: subtrees that spell nothing are erased on both sides first.
+   With empty-deriving nonterminals the implementation and the chart model may enumerate different subsets of the (valid) empty
+   derivations; which of them are found is a matter of completeness (C05), not of soundness. *)
+Fixpoint spells_nothing (t : tree) : bool :=
+  match t with
+  | Leaf (LPay p) => match lit_units p with [] => true | _ => false end
+  | Leaf (LBit _) => false
+  | Node _ kids => forallb spells_nothing kids
+  end.
+Fixpoint erase_empty (t : tree) : tree :=
+  match t with
+  | Leaf l => Leaf l
+  | Node n kids =>
+      Node n ((fix go (ks : list tree) : list tree :=
+                 match ks with
+                 | [] => []
+                 | k :: ks' => if spells_nothing k then go ks' else erase_empty k :: go ks'
+                 end) kids)
+  end.
+Definition c04_corr_modulo_empty (c : crules * string * input * nat * list tree) : nat :=
+  let '(g, start, inp, fuel, impl) := c in
+  let cols := admitted fuel g start inp in
+  if existsb (fun n => Nat.leb fuel n) cols then 5
+  else if forest_eq_set (map erase_empty (parse_m fuel g start inp)) (map erase_empty impl) then 1 else 0.
